@@ -920,8 +920,13 @@ fn gen_query(rng: &mut Rng, model: &Value, names: &[String]) -> String {
         }
         6 => {
             let n = some_name(rng);
-            let sel = name_sel(rng, &n);
-            q.push_str(&format!("..[{}]", sel));
+            if gen::shorthand_ok(&n) && rng.chance(1, 2) {
+                // the shorthand spelling directly under the descendant operator
+                q.push_str(&format!("..{}", n));
+            } else {
+                let sel = name_sel(rng, &n);
+                q.push_str(&format!("..[{}]", sel));
+            }
         }
         7 => {
             let a = some_name(rng);
